@@ -247,8 +247,9 @@ func C07(c *core.Ctx) {
 			}
 		}
 		// stored wire is a private copy of the wire parameter; staleTime from Now()(+FreshnessPeriod)
+		sl := &core.Slicer{P: p, Root: ins}
 		nW, nS := 0, 0
-		core.Instrs(ins, func(in ssa.Instruction) {
+		core.InstrsDeep(ins, func(in ssa.Instruction) {
 			st, ok := in.(*ssa.Store)
 			if !ok {
 				return
@@ -358,7 +359,7 @@ func C07(c *core.Ctx) {
 			return true
 		}
 		var erase, unlink ssa.Instruction
-		core.Instrs(ev, func(in ssa.Instruction) {
+		core.InstrsDeep(ev, func(in ssa.Instruction) {
 			if cc, ok := core.IsCall(in, core.CalleeID{Pkg: "fw/table", Recv: "PitCsTable", Name: "eraseCsDataFromReplacementStrategy"}); ok {
 				_, a := core.CallArgs(cc)
 				if front(a[0]) {
@@ -380,7 +381,7 @@ func C07(c *core.Ctx) {
 		c.Decide(okIter, "R7.3", "evict-front-from-table-and-queue", p.Pos(ev.Pos()), "every iteration erases queue.Front() from the store and removes it from the queue", "an eviction iteration does not erase the least-recently-used (front) entry from both the store and the queue")
 		// the LRU location map is updated as well
 		delLoc := false
-		core.Instrs(ev, func(in ssa.Instruction) {
+		core.InstrsDeep(ev, func(in ssa.Instruction) {
 			if cl, ok := in.(*ssa.Call); ok {
 				if b, ok := cl.Call.Value.(*ssa.Builtin); ok && b.Name() == "delete" {
 					delLoc = true
@@ -396,8 +397,9 @@ func C07(c *core.Ctx) {
 			continue
 		}
 		idx := ssa.Value(fn.Params[1])
+		sl := &core.Slicer{P: p, Root: fn}
 		var push ssa.Instruction
-		core.Instrs(fn, func(in ssa.Instruction) {
+		core.InstrsDeep(fn, func(in ssa.Instruction) {
 			if cc, ok := core.IsCall(in, core.CalleeID{Pkg: "container/list", Recv: "List", Name: "PushBack"}); ok {
 				_, a := core.CallArgs(cc)
 				if ls := sl.Leaves(a[0]); len(ls) == 1 && ls[0].Val == idx {
@@ -410,7 +412,7 @@ func C07(c *core.Ctx) {
 		if ok {
 			fr := core.MustFollowDeep(fn, core.After(push), func(in ssa.Instruction) bool {
 				mu, ok := in.(*ssa.MapUpdate)
-				return ok && mu.Key == idx && core.Strip(mu.Value) == push.(ssa.Value)
+				return ok && core.Same(mu.Key, idx) && core.Strip(mu.Value) == push.(ssa.Value)
 			}, nil)
 			c.Decide(fr.OK, "R7.3", "lru-records-location:"+m, p.Pos(fn.Pos()), "locations[index] = the new element", m+" does not record the new queue element under the entry's index")
 		}
